@@ -218,6 +218,8 @@ def compare(pr, kind, info, a, b, ga, gb):
                                       + ("; default utility present on one side of the mirror only" if asym else ""),
                                       "cold_sufficiency_sign" if asym else None)); break
     # graph data: same curves (as point lists) for transformations that do not touch the curves' break points
+    if kind == "translate_zero":
+        kind = "translate"
     if kind in ("permute", "reorder_zones", "rename_zones", "translate", "scale", "split_serial", "split_parallel"):
         for (key, typ), segs in ga.items():
             kb = (map_name(key, info), typ)
@@ -276,6 +278,38 @@ def gen_base(rng):
     return pr
 
 
+def gen_cold_glide(rng):
+    """Below-pinch surplus at low temperature met by a GLIDING cold utility with its own contribution (district heating
+    return / hot-water generation) whose return-temperature limit binds, with a colder utility behind it."""
+    t0 = float(rng.randrange(12, 20) * 10)
+    dt = rng.choice([5.0, 10.0])
+    du = rng.choice([5.0, 10.0, 15.0])
+    S = lambda n, a, b, q: {"name": n, "zone": "A", "t_supply": a, "t_target": b, "heat_flow": q, "dt_cont": dt, "htc": 1.0}
+    ss = [S("H1", t0, t0 - 110 - rng.choice([0, 10]), float(rng.randrange(30, 80) * 100)),
+          S("C1", t0 - 90, t0 - 20, float(rng.randrange(5, 25) * 100))]
+    if rng.random() < 0.5:
+        ss.append(S("H2", t0 - 40, t0 - 100, float(rng.randrange(5, 30) * 100)))
+    a = t0 - 100 + rng.choice([0.0, 10.0]); g = float(rng.choice([20, 40, 60]))
+    U = lambda n, ty, ts, tt, d: {"name": n, "type": ty, "t_supply": ts, "t_target": tt, "heat_flow": 0.0, "dt_cont": d, "htc": 1.0, "price": 10.0}
+    us = [U("HPS", "Hot", t0 + 80, t0 + 80, dt), U("DH", "Cold", a, a + g, du), U("CW", "Cold", t0 - 190, t0 - 185, dt)]
+    rng.shuffle(us)
+    return {"streams": ss, "utilities": us, "options": {}}
+
+
+def t_translate_zero(rng, pr):
+    """Translation that puts the target (or, failing that, the supply) temperature of a gliding utility at exactly 0."""
+    q = copy.deepcopy(pr)
+    gl = [u for u in q["utilities"] if abs(u["t_target"] - u["t_supply"]) > 1.0]
+    pool = [u["t_target"] for u in gl] or [u["t_target"] for u in q["utilities"]] or [q["streams"][0]["t_target"]]
+    d = -float(rng.choice(pool))
+    for s in q["streams"] + q["utilities"]:
+        s["t_supply"] += d; s["t_target"] += d
+    return q, {"dT": d}
+
+
+FUN["translate_zero"] = t_translate_zero
+
+
 def check_case(ctx, case):
     pr, kind, seed = case["problem"], case["transform"], case["tseed"]
     import random
@@ -302,6 +336,15 @@ def run(ctx: Ctx):
     cases = [c for c in corpus if c.get("kind") == "metamorphic"]
     for _ in range(ctx.n(240, 4000)):
         cases.append({"kind": "metamorphic", "problem": gen_base(ctx.rng), "transform": ctx.rng.choice(TRANSFORMS), "tseed": ctx.rng.randrange(10**6)})
+    # fixed shares aimed at the two places where a description-dependent slip hides (so that detection does not hang on
+    # the seed): a gliding cold utility whose return limit binds, mirrored; a gliding utility whose target becomes 0
+    for _ in range(ctx.n(24, 300)):
+        cases.append({"kind": "metamorphic", "problem": gen_cold_glide(ctx.rng), "transform": "mirror", "tseed": ctx.rng.randrange(10**6)})
+    for _ in range(ctx.n(24, 300)):
+        pr = gen_base(ctx.rng)
+        if not any(abs(u["t_target"] - u["t_supply"]) > 1.0 for u in pr["utilities"]):
+            pr = gen_cold_glide(ctx.rng)
+        cases.append({"kind": "metamorphic", "problem": pr, "transform": "translate_zero", "tseed": ctx.rng.randrange(10**6)})
     model_tie(ctx, cases)
     for c in cases:
         fails = check_case(ctx, c)
